@@ -449,34 +449,25 @@ theorem restoreCommons_ok (st : Store) (ss : List (Bytes × Cell)) (sa : List (B
       · intro hnil
         rw [(b10 hnil).1, a9]
 
-theorem chainLoad_ok (fixHold : Bool) (file : Option (List (Nat × Bytes) × Nat)) (jump : Option Nat) (s1 s3 : St)
-    (h : chainLoad fixHold file jump s1 = .ok s3) :
-    ∃ prog size, file = some (prog, size) ∧
-      s3 = { s1 with prog := prog, mem := { s1.mem with progSize := size, code := [] },
-                     it := { clearStacks s1.it with runMode := true } } := by
+theorem chainLoad_ok (fixHold : Bool) (pf : List (Nat × Bytes) × Nat) (jump : Option Nat) (s1 s3 : St)
+    (h : chainLoad fixHold pf jump s1 = .ok s3) :
+    s3 = { s1 with prog := pf.1, mem := { s1.mem with progSize := pf.2, code := [] },
+                   it := { clearStacks s1.it with runMode := true } } := by
   unfold chainLoad at h
-  cases file with
-  | none => cases h
-  | some pf =>
-    obtain ⟨prog, size⟩ := pf
-    by_cases hj : jumpOk prog jump = true
-    · simp only [hj, Bool.not_true, Bool.false_eq_true, if_false, Except.ok.injEq] at h
-      exact ⟨prog, size, rfl, h.symm⟩
-    · simp [hj] at h
+  by_cases hj : jumpOk pf.1 jump = true
+  · simp only [hj, Bool.not_true, Bool.false_eq_true, if_false, Except.ok.injEq] at h
+    exact h.symm
+  · simp [hj] at h
 
-theorem chainLoad_error (fixHold : Bool) (file : Option (List (Nat × Bytes) × Nat)) (jump : Option Nat)
-    (s1 t : St) (e : Nat) (h : chainLoad fixHold file jump s1 = .error (e, t)) :
-    (e = Gen.E.file_not_found ∨ e = Gen.E.ifc) ∧ t.mem.allowCollect = (fixHold || s1.mem.allowCollect) := by
+theorem chainLoad_error (fixHold : Bool) (pf : List (Nat × Bytes) × Nat) (jump : Option Nat)
+    (s1 t : St) (e : Nat) (h : chainLoad fixHold pf jump s1 = .error (e, t)) :
+    e = Gen.E.ifc ∧ t.mem.allowCollect = (fixHold || s1.mem.allowCollect) := by
   unfold chainLoad at h
-  cases file with
-  | none => cases h; exact ⟨Or.inl rfl, rfl⟩
-  | some pf =>
-    obtain ⟨prog, size⟩ := pf
-    by_cases hj : jumpOk prog jump = true
-    · simp [hj] at h
-    · simp only [hj, Bool.not_false, if_true, Except.error.injEq, Prod.mk.injEq, Bool.not_eq_true] at h
-      obtain ⟨rfl, rfl⟩ := h
-      exact ⟨Or.inr rfl, rfl⟩
+  by_cases hj : jumpOk pf.1 jump = true
+  · simp [hj] at h
+  · simp only [hj, Bool.not_false, if_true, Except.error.injEq, Prod.mk.injEq] at h
+    obtain ⟨rfl, rfl⟩ := h
+    exact ⟨rfl, rfl⟩
 
 theorem pick_names (names : List Bytes) (vars : List (Bytes × α)) (n : Bytes) :
     n ∈ (pick names vars).map (·.1) ↔ n ∈ names ∧ ∃ v, vars.lookup n = some v := by
